@@ -79,6 +79,18 @@ def _case(draw, sims=SIMS, **kw):
     r["sim"] = draw(st.sampled_from(sims))
     r["entry"] = draw(st.sampled_from(["run", "run", "simulate", "sample", "run_sweep"]))
     r["reps"] = draw(st.sampled_from([1, 1, 1, 2]))
+    est = 1
+    for o in r["ops"]:
+        if o["k"] == "m":
+            for w in o["w"]:
+                est *= r["dims"][w]
+            if o.get("conf"):
+                est *= 2 ** len(o["conf"][0])
+        elif o["k"] == "pm":
+            est *= 2
+    if est > 24:
+        r["reps"] = 1  # two repetitions square the number of outcome branches
+    r["est_branches"] = est
     n = len(r["dims"])
     r["order"] = list(draw(st.permutations(list(range(n)))))
     return r
@@ -160,7 +172,7 @@ def oracle_distribution(r):
         raise KeyError(entry)
 
     try:
-        branches = enumerate_branches(run, max_branches=1200, branch_vectors=2)
+        branches = enumerate_branches(run, max_branches=800, branch_vectors=2)
     except OverflowError:
         raise Reject("too many branches")
     tot = sum(p for p, *_ in branches)
@@ -331,11 +343,11 @@ def oracle_sample_pure(r):
 
 
 SUBCHECKS = [
-    SubCheck("distribution", _case(max_w=4, max_ops=9), oracle_distribution, quick=3000, thorough=24000, shards_quick=8,
+    SubCheck("distribution", _case(max_w=4, max_ops=9, max_branches=32), oracle_distribution, quick=3000, thorough=24000, shards_quick=8,
              essential={"cond": 0.15, "repeated_key": 0.05}),
     SubCheck("distribution_qudit", _case(max_w=3, max_ops=8, qudits=True), oracle_distribution, quick=400, thorough=5000, shards_quick=2),
-    SubCheck("distribution_clifford", _case(sims=["clifford", "clifford_nosplit", "stab_sampler"], max_w=4, max_ops=9, clifford=True),
-             oracle_distribution, quick=600, thorough=4000, shards_quick=4),
+    SubCheck("distribution_clifford", _case(sims=["clifford", "clifford_nosplit", "stab_sampler"], max_w=4, max_ops=9, clifford=True, max_branches=16),
+             oracle_distribution, quick=480, thorough=4000, shards_quick=8),
     SubCheck("distribution_tableau", _case(sims=["stab_sampler"], max_w=4, max_ops=12, clifford=True, confusion=False, max_branches=16),
              oracle_distribution, quick=500, thorough=4000, shards_quick=4),
     SubCheck("sampling_is_pure", _sample_case(), oracle_sample_pure, quick=600, thorough=8000, shards_quick=2),
